@@ -1,4 +1,58 @@
-import ZorgVerif.Model.NoteText
+import ZorgVerif.Lemmas.NoteText
+/-!
+# C11 — Modification dates are stamped on exactly the notes that were edited
+Model: `Model/NoteText.lean` — `isStamped` (the decision of `_check_for_modified_notes`),
+`addOrUpdateModifyDate`, `updateLines`.
+-/
 namespace ZorgVerif.C11
-theorem C11_placeholder : (1 : Nat) = 1 := rfl
+open ZorgVerif ZorgVerif.NoteText
+
+/-- **iff**: a freshly compiled note is stamped exactly when it carries a ZID that the previous index
+state of the page already had, its body or todo state differs from that state, and it is not already
+dated today. -/
+theorem C11_iff (today : Date) (old : List NoteState) (n : NoteState) :
+    isStamped today old n = true ↔ ∃ z o, n.zid = some z ∧
+      old.find? (fun o => o.zid == some z) = some o ∧ sameNote n o = false ∧ n.mdate ≠ today :=
+  isStamped_iff today old n
+
+/-- a new note (no ZID, or a ZID the old page did not have) and an unchanged note are never stamped -/
+theorem C11_not_stamped (today : Date) (old : List NoteState) (n : NoteState) :
+    (n.zid = none → isStamped today old n = false) ∧
+    (∀ z o, n.zid = some z → old.find? (fun o => o.zid == some z) = some o → sameNote n o = true → isStamped today old n = false) ∧
+    (n.mdate = today → isStamped today old n = false) := by
+  refine ⟨?_, ?_, ?_⟩
+  · intro h; simp [isStamped, h]
+  · intro z o hz ho hs; simp [isStamped, hz, ho, hs]
+  · intro h
+    cases hs : isStamped today old n with
+    | false => rfl
+    | true =>
+      obtain ⟨_, _, _, _, _, hne⟩ := (isStamped_iff today old n).1 hs
+      exact absurd h hne
+
+/-- **the stamp goes in front of the ZID**: the date is inserted right after the kind / priority prefix
+(replacing an older six-digit stamp), everything else on the line is kept -/
+theorem C11_stamp_position (date : Str) (k j : Nat) (sym : Str) (prio body : List Str) (h : Shape sym prio j body)
+    (hsp : ∀ w ∈ shapeWords k sym prio j body, ' ' ∉ w) :
+    addOrUpdateModifyDate date (joinSp (shapeWords k sym prio j body)) =
+      .ok (shapePre k sym prio ++ date ++ [' '] ++ joinSp (dropLeading isSixDigits body)) :=
+  addOrUpdateModifyDate_shape date k j sym prio body h hsp
+
+/-- re-stamping on a later day replaces the old stamp (no stamps pile up) -/
+theorem C11_restamp (d1 d2 : Str) (k j : Nat) (sym : Str) (prio body : List Str) (h : Shape sym prio j body)
+    (hsp : ∀ w ∈ shapeWords k sym prio j body, ' ' ∉ w) (hd1 : isSixDigits d1 = true) (l1 : Str)
+    (h1 : addOrUpdateModifyDate d1 (joinSp (shapeWords k sym prio j body)) = .ok l1) :
+    addOrUpdateModifyDate d2 l1 = addOrUpdateModifyDate d2 (joinSp (shapeWords k sym prio j body)) :=
+  addOrUpdateModifyDate_restamp d1 d2 k j sym prio body h hsp hd1 l1 h1
+
+/-- **every other note's lines stay byte-identical** -/
+theorem C11_others_untouched (f : Str → Str → Except Err Str) (us : List Upd) (ls ls' : List Str)
+    (h : updateLines f us ls = .ok ls') :
+    ls'.length = ls.length ∧ ∀ i, (∀ u ∈ us, u.lineNo - 1 ≠ i) → ls'[i]? = ls[i]? :=
+  updateLines_spec f us ls ls' h
+
+/-! Non-vacuity -/
+example : (addOrUpdateModifyDate "240616".toList "o P1 240101 240615#00 x".toList).toOption = some ("o P1 240616 240615#00 x".toList) := by decide +kernel
+example : (addOrUpdateModifyDate "240616".toList "- 240615#00 first edit".toList).toOption = some ("- 240616 240615#00 first edit".toList) := by decide +kernel
+
 end ZorgVerif.C11
